@@ -18,7 +18,9 @@ RULE = (
     "callback; books change on every update. Oracle: independent latency timeline (first update of the same market "
     "strictly later than request + latency (+ bet delay at request time for place/replace)); arrival fills must be "
     "valid against the book before the effective update; metamorphic run without the follow-up request must give "
-    "identical fills before the effective update. Non-trivial: a request whose effective update is not the next "
+    "identical fills before the effective update. In event-grouped runs about two thirds of the scripted entries are "
+    "issued from ANOTHER market's callback (between two updates of the target market): the latency clock then starts "
+    "at the issuing update's time. Non-trivial: a request whose effective update is not the next "
     "update of its market or that has other markets' updates in between; distinct = distinct scenario JSON."
 )
 ASSUMPTIONS = [
@@ -54,6 +56,22 @@ def scenario(draw, tier="quick"):
         strategies_scripts += draw(gen.script(spec, states, mi=mi, max_entries=5, max_ops=3,
                                               place_kw=dict(kinds=("LIMIT",), fok=False, sp=False, mv=False, sizes="level"),
                                               follow_weight=2))
+    if grouped:
+        # some scripted entries are issued from ANOTHER market's callback (a strategy trading the whole event):
+        # the source update lies strictly between the target market's update `at` and its next one
+        pts = [[u.pt for u in world.render(m).updates] for m in markets]
+        closing = [[u.status == "CLOSED" for u in world.render(m).updates] for m in markets]
+        for n_, ent in enumerate(strategies_scripts):
+            tm, k = ent["m"], ent["at"]
+            if k >= len(pts[tm]) or draw(st.integers(0, 2)) == 0:
+                continue
+            lo = pts[tm][k]
+            hi = pts[tm][k + 1] if k + 1 < len(pts[tm]) else None
+            cands = [(a, i) for a in range(nm) if a != tm for i, p in enumerate(pts[a])
+                     if p > lo and (hi is None or p < hi) and not closing[a][i]]
+            if cands:
+                a, i = cands[draw(st.integers(0, len(cands) - 1))]
+                strategies_scripts[n_] = {"m": a, "at": i, "ops": [{"op": "on", "tm": tm, "ops": ent["ops"]}]}
     sc = {
         "markets": markets,
         "event_processing": grouped,
@@ -68,10 +86,10 @@ def _ms(x):
     return int(round((x - dt.datetime(1970, 1, 1)).total_seconds() * 1000))
 
 
-def predicted(updates, k, delay_ms):
-    """first j > k with pt_j - pt_k > delay; returns (j, ambiguous_j) where ambiguous_j is an update falling
-    exactly on the boundary (either is accepted)"""
-    tk = updates[k].pt
+def predicted(updates, k, delay_ms, t0=None):
+    """first j > k with pt_j - t0 > delay (t0 = request time, by default the time of update k); returns
+    (j, ambiguous_j) where ambiguous_j is an update falling exactly on the boundary (either is accepted)"""
+    tk = updates[k].pt if t0 is None else t0
     amb = None
     for j in range(k + 1, len(updates)):
         d = updates[j].pt - tk
@@ -120,13 +138,23 @@ def check(sc, metamorphic=True):
         mi = res.m
         us = ups[mi]
         k = res.idx
-        tk = us[k].pt
-        if _ms(res.now) != tk:
-            raise Violation("request-clock", (), "request time %s != update time %s" % (res.now, tk), sc)
+        cross = bool(getattr(res, "cross", False))
+        if cross:
+            # issued while another market's update was processed: the clock starts at that update's time; the
+            # target market's current book (its bet delay) is its latest update k
+            tk = _ms(res.now)
+            if k < 0 or not (us[k].pt < tk and (k + 1 >= len(us) or tk < us[k + 1].pt)):
+                continue  # not the shape the generator builds (e.g. after minimisation): not judged
+            nt = True
+            classes.add("cross-market-request:" + kind)
+        else:
+            tk = us[k].pt
+            if _ms(res.now) != tk:
+                raise Violation("request-clock", (), "request time %s != update time %s" % (res.now, tk), sc)
         delay_ms = Fraction(str(lat[kind])) * 1000
         if kind in ("place", "replace"):
             delay_ms += us[k].bet_delay * 1000
-        j, amb = predicted(us, k, delay_ms)
+        j, amb = predicted(us, k, delay_ms, tk)
         order = res.order if kind == "place" else res.target
         oid = id(order)
         if j is not None and j != k + 1:
@@ -145,8 +173,8 @@ def check(sc, metamorphic=True):
             snap = next((o for o in rec["orders"] if o["oid"] == oid), None)
             if snap is None:
                 continue
-            if u == k and rec["cb"] != "process_market_book":
-                continue
+            if u == k and (cross or rec["cb"] != "process_market_book"):
+                continue  # callbacks of update k that ran before the request was made
             if u > k and kind != "place" and seen_after.get(id(res)):
                 # only the first callback at/after the effective update judges a follow-up request: later
                 # callbacks may already carry the strategy's next request on the same order
@@ -206,8 +234,11 @@ def check(sc, metamorphic=True):
                 if _ms(snap["created"]) != tk:
                     raise Violation("created-date", (), "date_time_created %s != request time %s" % (snap["created"], tk), sc)
                 for ptm, p, s in snap["matched"]:
-                    if ptm < tk:
-                        raise Violation("fragment-before-request", (), "fragment time %s < request time %s" % (ptm, tk), sc)
+                    # fragments carry the publish time of the book they were matched against: never a book older
+                    # than the one current at request time (for a cross-market request that is update k, published
+                    # before the request)
+                    if ptm < us[k].pt:
+                        raise Violation("fragment-before-request", (), "fragment time %s < time %s of the book current at request time" % (ptm, us[k].pt), sc)
     # ---- metamorphic: an in-flight cancel/update/replace leaves the order fillable as before
     if metamorphic:
         follow = [r for r in lb.op_log if r.op["op"] in INFLIGHT and r.result is True and not r.error]
@@ -215,6 +246,8 @@ def check(sc, metamorphic=True):
             res = follow[0]
             kind = res.op["op"]
             us = ups[res.m]
+            if getattr(res, "cross", False):
+                return nt, classes
             delay_ms = Fraction(str(lat[kind])) * 1000 + (us[res.idx].bet_delay * 1000 if kind == "replace" else 0)
             j, amb = predicted(us, res.idx, delay_ms)
             if amb is not None:
